@@ -239,8 +239,9 @@ def _conv_cases(arg):
     out = []
     for s in arg:
         # sample -> node subset: the clicked modes, each once, as labels of the graph (canonical and relabelled)
-        for lname in ("canonical", "scrambled"):
-            lab = list(range(len(s))) if LABELS[lname] is None else LABELS[lname][:len(s)]
+        for lname in ("canonical", "scrambled", "permuted"):
+            # "permuted": the labels are 0..n-1 but not in insertion order (mode i is the i-th node of graph.nodes, not node i)
+            lab = list(range(len(s))) if lname == "canonical" else (list(range(len(s)))[::-1] if lname == "permuted" else LABELS[lname][:len(s)])
             try:
                 g = _graph(len(s), [(i, i + 1) for i in range(len(s) - 1)], lab)
                 sub = smp.to_subgraphs([list(s)], g)[0]
@@ -266,6 +267,10 @@ def _search_case(case):
     from strawberryfields.apps import clique as cq, subgraph as sg
     n, edges = case["n"], case["edges"]
     g = _graph(n, edges)
+    if case["seed"] % 2:
+        # edge weights (as in nx.Graph(A) for a real matrix A) do not enter the density, a count of edges
+        for k, (a, b) in enumerate(list(g.edges)):
+            g[a][b]["weight"] = 1.5 + k
     out = []
     try:
         np.random.seed(case["seed"])
